@@ -266,10 +266,14 @@ class Specs:
         seen = set() if seen_ids is None else seen_ids
         names = self.by_decl
 
-        def has_var(e, memo={}):
+        memo = {}
+        keep = []       # z3 re-uses ast ids after garbage collection: keep every keyed term alive
+
+        def has_var(e):
             k = e.get_id()
             if k in memo:
                 return memo[k]
+            keep.append(e)
             r = False
             if z3.is_var(e):
                 r = True
@@ -285,6 +289,7 @@ class Specs:
             if k in seen:
                 return
             seen.add(k)
+            keep.append(e)
             if z3.is_quantifier(e):
                 walk(e.body())
                 return
@@ -301,12 +306,14 @@ class Specs:
         """ground instances  col(A, j)[x] == A[x][j]  for every such select occurring"""
         out = []
         seen = set()
+        keep = []
 
         def walk(e):
             k = e.get_id()
             if k in seen:
                 return
             seen.add(k)
+            keep.append(e)
             if z3.is_quantifier(e):
                 walk(e.body())
                 return
@@ -721,10 +728,13 @@ def _patterns(body, xs):
     xids = {x.get_id() for x in xs}
     memo = {}
 
+    keep = list(xs)
+
     def vars_in(e):
         k = e.get_id()
         if k in memo:
             return memo[k]
+        keep.append(e)
         r = set()
         if k in xids:
             r = {k}
@@ -738,6 +748,7 @@ def _patterns(body, xs):
         if e.get_id() in seen or not z3.is_app(e):
             return
         seen.add(e.get_id())
+        keep.append(e)
         if z3.is_select(e) and vars_in(e) == xids and not any(
                 z3.is_app(c) and c.decl().kind() in (z3.Z3_OP_ADD, z3.Z3_OP_SUB, z3.Z3_OP_MUL)
                 for c in [e.arg(1)] + ([e.arg(0).arg(1)] if z3.is_select(e.arg(0)) else [])):
